@@ -126,6 +126,7 @@ struct Exporter {
     rec: metrics_exporter_prometheus::PrometheusRecorder,
 }
 
+static LISTENER_LAST: std::sync::atomic::AtomicBool = std::sync::atomic::AtomicBool::new(false);
 fn start(allow: &[&str]) -> Result<Exporter, (String, String)> {
     start_with(allow, &|_| {})
 }
@@ -138,12 +139,20 @@ fn start_with(allow: &[&str], pre: &dyn Fn(SocketAddr)) -> Result<Exporter, (Str
         l.local_addr().unwrap().port()
     };
     let addr: SocketAddr = format!("127.0.0.1:{}", port).parse().unwrap();
-    let mut b = PrometheusBuilder::new().with_http_listener(addr);
+    // the two builder options are independent: the matrix builds every exporter both ways (allowlist after / before the listen address)
+    let listener_last = LISTENER_LAST.load(std::sync::atomic::Ordering::SeqCst);
+    let mut b = PrometheusBuilder::new();
+    if !listener_last {
+        b = b.with_http_listener(addr);
+    }
     for e in allow {
         b = match b.add_allowed_address(e) {
             Ok(b) => b,
             Err(err) => return Err(("documented-allowlist-entry-rejected".into(), format!("add_allowed_address({:?}) failed: {} (plain addresses and CIDR subnets are both documented)", e, err))),
         };
+    }
+    if listener_last {
+        b = b.with_http_listener(addr);
     }
     let rt = tokio::runtime::Builder::new_multi_thread().worker_threads(2).enable_all().build().unwrap();
     let (rec, fut) = rt.block_on(async { b.build() }).map_err(|e| ("exporter-failed-to-start".to_string(), e.to_string()))?;
@@ -222,9 +231,14 @@ fn matrix_part(ctx: &Ctx, res: &mut PartResult, lists: Vec<Option<Vec<&'static s
             res.exhaustive = false;
             break;
         }
-        let replay = json!({"allow": allow});
+      for listener_last in [false, true] {
+        if listener_last && allow.is_none() {
+            continue;
+        }
+        LISTENER_LAST.store(listener_last, std::sync::atomic::Ordering::SeqCst);
+        let replay = json!({"allow": allow, "listener_last": listener_last});
         if let Some(rp) = &ctx.replay {
-            if rp["allow"] != replay["allow"] {
+            if rp["allow"] != replay["allow"] || rp["listener_last"].as_bool().unwrap_or(false) != listener_last {
                 continue;
             }
         }
@@ -250,7 +264,7 @@ fn matrix_part(ctx: &Ctx, res: &mut PartResult, lists: Vec<Option<Vec<&'static s
                     Ok(o) => {
                         states.add(&(format!("{:?}", allow), peer, o, path.len() > 40));
                     }
-                    Err((sig, msg)) => res.violation(&sig, format!("allowlist {:?}, peer {:?}, GET {}: {}", allow, Ipv4Addr::from(peer), shown, msg), replay.clone()),
+                    Err((sig, msg)) => res.violation(&sig, format!("allowlist {:?} (given {} the listen address), peer {:?}, GET {}: {}", allow, if listener_last { "before" } else { "after" }, Ipv4Addr::from(peer), shown, msg), replay.clone()),
                 }
             }
         }
@@ -263,6 +277,8 @@ fn matrix_part(ctx: &Ctx, res: &mut PartResult, lists: Vec<Option<Vec<&'static s
             }
         }
         drop(ex);
+      }
+      LISTENER_LAST.store(false, std::sync::atomic::Ordering::SeqCst);
     }
     res.states = states.len();
     res.distinct_outcomes = states.len();
@@ -807,7 +823,7 @@ fn main() {
     driver::main(CheckDef {
         prop: "C18",
         level: "fault_enumeration",
-        rule: "allowlists = none and all subsets of size 1-2 (thorough: ordered pairs and subsets of size 3) of {127.0.0.1 (plain address), 127.0.0.2/32, 127.0.0.0/30, 127.0.1.0/24, 10.0.0.0/8, ::1/128, ::/0, 0.0.0.0/0} x peers bound to {127.0.0.1,.2,.3,.4, 127.0.1.0, 127.0.1.255, 127.0.2.0, 127.1.1.1} x paths {/, /metrics, /health, /healthz; from two of the peers also a 9 kB path and a 60 kB query string}, one request each against a fresh real exporter (builder.build() on a tokio runtime); oracle: independent CIDR arithmetic; inside => 200 and the body parses (strict parser) to exactly the recorded state, /health => OK; outside => 403 with an empty body; plus all disturbance sequences of length <= 2 (thorough 3) over {garbage bytes, half a request then idle, connect + RST, 8 concurrent scrapers, 4 refused scrapes, a silent connection held open by a refused peer, a keep-alive connection idling after its answer held by a refused peer and by an allowed peer} each followed by probes that must be served; a scripted fault history in which accept() itself fails for lack of file descriptors (EMFILE) and descriptors are then released; plus an exporter listening on [::1] scraped from ::1 under no allowlist and all subsets of size 1-2 of {::1, ::1/128, ::/64, ::/8, fe80::/10, 2001:db8::/32, 127.0.0.1, 0.0.0.0/8} (an IPv4 network never admits an IPv6 peer); plus all sequences (depth <= 3 quick / 5 thorough) over {record, scrape, wait for the exporter's periodic upkeep task (15 ms period)}: every scrape reports exactly the samples recorded so far; distinct_nontrivial = distinct (allowlist, peer, outcome) / (sequence, outcome) cases",
+        rule: "allowlists = none and all subsets of size 1-2 (thorough: ordered pairs and subsets of size 3) of {127.0.0.1 (plain address), 127.0.0.2/32, 127.0.0.0/30, 127.0.1.0/24, 10.0.0.0/8, ::1/128, ::/0, 0.0.0.0/0} x peers bound to {127.0.0.1,.2,.3,.4, 127.0.1.0, 127.0.1.255, 127.0.2.0, 127.1.1.1} x paths {/, /metrics, /health, /healthz; from two of the peers also a 9 kB path and a 60 kB query string}, one request each against a fresh real exporter (builder.build() on a tokio runtime; every allowlist given once after and once before the listen address); oracle: independent CIDR arithmetic; inside => 200 and the body parses (strict parser) to exactly the recorded state, /health => OK; outside => 403 with an empty body; plus all disturbance sequences of length <= 2 (thorough 3) over {garbage bytes, half a request then idle, connect + RST, 8 concurrent scrapers, 4 refused scrapes, a silent connection held open by a refused peer, a keep-alive connection idling after its answer held by a refused peer and by an allowed peer} each followed by probes that must be served; a scripted fault history in which accept() itself fails for lack of file descriptors (EMFILE) and descriptors are then released; plus an exporter listening on [::1] scraped from ::1 under no allowlist and all subsets of size 1-2 of {::1, ::1/128, ::/64, ::/8, fe80::/10, 2001:db8::/32, 127.0.0.1, 0.0.0.0/8} (an IPv4 network never admits an IPv6 peer); plus all sequences (depth <= 3 quick / 5 thorough) over {record, scrape, wait for the exporter's periodic upkeep task (15 ms period)}: every scrape reports exactly the samples recorded so far; distinct_nontrivial = distinct (allowlist, peer, outcome) / (sequence, outcome) cases",
         assumptions: &["tokio / hyper task scheduling runs free: request histories are enumerated, not the server's internal interleavings", "a response is awaited 3 s and then once more for 30 s before 'not served' is reported"],
         parts,
         run,
